@@ -1976,7 +1976,7 @@ func (c *Ctx) c20RuleD(e *c20Eng) {
 		c.Undecided(rule, "dataflow:"+fn, token.NoPos, "the movement analysis of %s did not reach a fixpoint within its iteration budget: nothing about its loops is decided", fn)
 	}
 	c.MinCount("R20c", "re-slices between a saved and the current position", nrel, 14)
-	c.MinCount(rule, "position loops in the slice", nloops, 22)
+	c.MinCount(rule, "position loops in the slice", nloops, 16)
 	c.MinCount(rule, "backward gotos in the slice", ngoto, 1)
 	var sl []string
 	for _, f := range fns {
